@@ -166,24 +166,34 @@ class Driver:
     def ask_many(self, cases: list[dict]) -> list[dict]:
         if not self.ok:
             return [{"error": "driver-unavailable"} for _ in cases]
+        import threading
+
+        payload = "".join(json.dumps(c, separators=(",", ":")) + "\n" for c in cases)
+
+        def writer():
+            # written from a separate thread: the driver answers while we are still writing, and a
+            # full pipe in either direction must not deadlock the check
+            try:
+                self.p.stdin.write(payload)
+                self.p.stdin.flush()
+            except (BrokenPipeError, ValueError):
+                pass
+
+        th = threading.Thread(target=writer, daemon=True)
+        th.start()
         out = []
-        CH = 256
-        for i in range(0, len(cases), CH):
-            chunk = cases[i : i + CH]
-            payload = "".join(json.dumps(c, separators=(",", ":")) + "\n" for c in chunk)
-            self.p.stdin.write(payload)
-            self.p.stdin.flush()
-            for _ in chunk:
-                line = self.p.stdout.readline()
-                if not line:
-                    self.ok = False
-                    out.append({"error": "driver-died"})
-                    continue
-                self.lines += 1
-                try:
-                    out.append(json.loads(line))
-                except json.JSONDecodeError:
-                    out.append({"error": "driver-bad-json", "raw": line[:200]})
+        for _ in cases:
+            line = self.p.stdout.readline()
+            if not line:
+                self.ok = False
+                out.append({"error": "driver-died"})
+                continue
+            self.lines += 1
+            try:
+                out.append(json.loads(line))
+            except json.JSONDecodeError:
+                out.append({"error": "driver-bad-json", "raw": line[:200]})
+        th.join(5)
         return out
 
     def ask(self, case: dict) -> dict:
@@ -307,6 +317,8 @@ def main(argv: list[str]) -> int:
         seed = 0
 
     sdk_path_setup()
+    import logging
+    logging.disable(logging.CRITICAL)
     from harness import findings
 
     mod = get_module(prop)
